@@ -12,12 +12,12 @@ ASSUMPTIONS = ["the bound on buffered unparsed input is a property of bufio's fi
                "it is not observed on the implementation"]
 RULE = ("conv probe, no scripted backend panics: (a) command lines of length limit-2..limit+3 for limits {40,64,2000} at first/"
         "middle/last position, each whole, split in two at every 8th offset, and byte-wise; the over-long line is a MAIL whose address "
-        "contains 'long' so that any execution of it or of a prefix is visible; (a') the same over-long lines after histories that touch the limiter: between BDAT chunks, after a refused / last chunk, after DATA, after RSET inside a chunked transfer, and as the answer to a SASL challenge arriving in two segments; (b) endless LF-free input; (c) every string up to "
+        "contains 'long' so that any execution of it or of a prefix is visible; (a') the same over-long lines after histories that touch the limiter: between BDAT chunks, after a refused / last chunk, after DATA, after RSET inside a chunked transfer, and as the answer to a SASL challenge arriving in two segments; (a'') an LF-free payload line whose beginning arrives in the segment of its BDAT command and whose end later, then a command within the limit: not refused (the counter restarts when the limit comes back); (b) endless LF-free input; (c) every string up to "
         "length 4 (thorough 5) over {NUL, CR, LF, SP, 'A', ':', 0xFF} as a command line; (c') every string up to length 3 (thorough 4) over {double quote, backslash, '<', '>', '@', 'a', SP, ':', '=', '+', '.'} as the argument of MAIL FROM:, RCPT TO:, AUTH= , ORCPT= and AUTH; (d) seeded random binary segments; (e) mixes of valid "
         "and invalid commands around the error threshold; (f) random walks without panic letters. non-trivial = the conversation "
         "contains an invalid, over-long or binary line; distinct = distinct case line | sched probe with `latestart` (the command loop does not wait "
         "for the delivery goroutine): the peer disconnects / QUITs / RSETs right after a BDAT command, SMTP and both LMTP modes, repeated: no recovered panic may be logged")
-THEOREMS = ["C19_short_lines_ok", "C19_long_line_trips", "C19_long_line_refused", "C19_error_threshold", "C19_tripped_ends_commands"]
+THEOREMS = ["C19_short_lines_ok", "C19_long_line_trips", "C19_long_line_refused", "C19_error_threshold", "C19_tripped_ends_commands", "C19_resume_short_ok", "C19_resume_counts_pending"]
 signature = cc.signature
 mutate = cc.mutate
 shrink = P.shrink_resegment
